@@ -134,7 +134,10 @@ func c12MakeJob(c *fw.Ctx, r *fw.Rng, kind, idx int) c12Job {
 				exec: func(t int) (string, error) {
 					var out bytes.Buffer
 					err := variants.Variants(strings.NewReader(msaTxt), true, ac.an.RefName, strings.NewReader(ac.annoTxt), ac.format, &out, -1, -1, agg6, 0, appendSNP, t)
-					return out.String(), err
+					if err != nil {
+						return "", err
+					}
+					return out.String(), nil
 				}}
 		}
 		return c12Job{name: name, threads: true, files: ac.files(),
